@@ -1,4 +1,4 @@
-import QuillModel.Rot.Generic
+import QuillModel.Rot.Dated
 /-!
 # C14 — size rotation keeps every statement whole and in order within size / count bounds
 
@@ -12,10 +12,18 @@ restarts with any configuration of the Index scheme in append mode or in write m
 A write-mode restart *without* clean-up (`remove_old_files = false`) orphans the files of the previous run (they are
 outside `_created_files`, later renames overwrite them): modelled, exercised by the harness, outside these theorems.
 
-Date / DateAndTime — `C14_dated_run_partial` (what holds for every scheme) and proved counter-witnesses:
-F14 (non-monotone timestamps: name order ≠ write order), F15 (no start-up recovery: the backup bound fails across
-append-mode restarts). Not proved here for the dated schemes: order / no-clobber of the rename chain within a run
-under non-decreasing timestamps (covered by the correspondence run and the oracle only).
+Date / DateAndTime — `…_partial`, under two premises that the counter-witnesses show to be necessary:
+(1) the civil suffix (day / second in the sink's zone) of the start instant and of the record timestamps never decreases
+(`MonoSfx`; implied by non-decreasing timestamps in a zone of constant offset, `monoSfx_of_sorted`) — F14 is what
+happens otherwise; (2) dated files of the family already in the directory that the sink does not recover are dated
+strictly before the start day (Date: `≤` today, today's files being recovered in append mode or removed in write mode
+with clean-up) / start second (DateAndTime). Then within a run (`C14_dated_run_partial`): the tracked files exist, are
+ordered oldest → newest exactly as the scheme orders names (earlier date older; same date: larger index older; current
+file last), the retained sequence is the written one minus a prefix of whole deleted files, every rename target is
+absent or already vacated (`C14_dated_no_clobber_partial`); and these invariants survive restarts
+(`C14_dated_restart_partial`) — but the *sequence* and the *backup bound* do not: the files of earlier days / of every
+earlier run are not recovered, so they are neither counted nor deleted first (F15, `C14_F15_restart_bound_fails`).
+`C14_any_scheme_write`: what holds for every scheme with no premise at all.
 F16: `_rotate_files` deletes one file per rotation, so a set of recovered files larger than `max_backup_files`
 never shrinks to it.
 -/
@@ -229,12 +237,10 @@ theorem C14_unrelated_untouched (P : Params) (z : Nat → Int) (w : World) (op :
       · rw [FS.get_put]; simp only [hne, ↓reduceIte]; exact hcl _
     · rw [FS.get_put]; simp only [hne, ↓reduceIte]; exact hcl _
 
-/-- **Every naming scheme, one run — the part that is proved** (`_partial`: for Date / DateAndTime the order of the
-    retained files by name and the absence of clobbering are *not* proved here; they need non-decreasing timestamps
-    (F14) and fail across restarts (F15)). For every scheme, zone, configuration and history: the current file exists
-    and `_file_size` is its size; each statement is appended whole at the end of the current file; the number of
-    tracked files after a write is at most `max(before, max_backup_files + 1)`. -/
-theorem C14_dated_run_partial (P : Params) (z : Nat → Int) (fs0 : FS) (c0 : Cfg) (start0 : Nat) (ops : List Op)
+/-- **Every naming scheme, no premise.** For every scheme, zone, configuration and history: the current file exists and
+    `_file_size` is its size; each statement is appended whole at the end of the current file; the number of tracked
+    files after a write is at most `max(before, max_backup_files + 1)`. -/
+theorem C14_any_scheme_write (P : Params) (z : Nat → Int) (fs0 : FS) (c0 : Cfg) (start0 : Nat) (ops : List Op)
     (st : Stmt) (ts : Nat) :
     let w := run P z (restart z fs0 c0 start0) ops
     CurInv w ∧ CurInv (write P z w st ts) ∧
@@ -244,6 +250,74 @@ theorem C14_dated_run_partial (P : Params) (z : Nat → Int) (fs0 : FS) (c0 : Cf
   have hw : CurInv w := run_curInv P z ops _ (restart_curInv z fs0 c0 start0)
   obtain ⟨pre, h1, _⟩ := write_cur P z w st ts hw
   exact ⟨hw, write_curInv P z w st ts hw, ⟨pre, h1⟩, write_count P z w st ts⟩
+
+/-- a directory a dated scheme can start on: distinct names; the dated files of the family are not from the future
+    (Date: not after the start day; DateAndTime: strictly before the start second) -/
+structure DirDated (z : Nat → Int) (sch : Scheme) (fs : FS) (start : Nat) : Prop where
+  keys : fs.keys.Nodup
+  past : ∀ d k, (fs.get (.file (some d) k)).isSome →
+    (sch = .date → d ≤ civilDay z start) ∧ (sch = .dateTime → d < civilSec z start)
+
+theorem restart_dated_inv (z : Nat → Int) (fs : FS) (c : Cfg) (start : Nat) (hs : c.scheme ≠ .index)
+    (hmode : c.append = true ∨ c.removeOld = true) (hd : DirDated z c.scheme fs start) :
+    DatedInv z (restart z fs c start) := by
+  cases hsch : c.scheme with
+  | index => exact absurd hsch hs
+  | date => exact restart_date_inv z fs c start hsch hmode hd.keys (fun d k hk => (hd.past d k hk).1 hsch)
+  | dateTime => exact restart_dateTime_inv z fs c start hsch hd.keys (fun d k hk => (hd.past d k hk).2 hsch)
+
+/-- **Date / DateAndTime, one run** (`_partial`: premises `DirDated` and `MonoSfx`, see the header). After the start and
+    any sequence of writes whose civil suffixes do not decrease: `DatedInv` — the tracked files all exist, the deque
+    from back to front is sorted exactly as the scheme orders names (`olderC`: earlier date older, same date larger index
+    older, current file last), no tracked file is dated after the current one, untracked dated files are strictly
+    earlier — and the retained sequence is the sequence at the start followed by the statements written, minus a prefix
+    (of whole deleted files, `write_dated_diskSeq`). -/
+theorem C14_dated_run_partial (P : Params) (z : Nat → Int) (fs0 : FS) (c0 : Cfg) (start0 : Nat) (hs : c0.scheme ≠ .index)
+    (hmode : c0.append = true ∨ c0.removeOld = true) (hd : DirDated z c0.scheme fs0 start0)
+    (l : List (Stmt × Nat)) (hm : MonoSfx z c0.scheme (sfxVal z c0.scheme start0) l) :
+    DatedInv z (run P z (restart z fs0 c0 start0) (l.map (fun p => Op.write p.1 p.2))) ∧
+      diskSeq (run P z (restart z fs0 c0 start0) (l.map (fun p => Op.write p.1 p.2))) <:+
+        diskSeq (restart z fs0 c0 start0) ++ l.map (·.1) :=
+  run_dated P z l _ (restart_dated_inv z fs0 c0 start0 hs hmode hd) hm
+
+/-- non-decreasing timestamps in a zone of constant offset satisfy `MonoSfx` -/
+theorem monoSfx_of_sorted (off : Int) (sch : Scheme) (start : Nat) (l : List (Stmt × Nat))
+    (h1 : ∀ x ∈ l, start ≤ x.2) (h2 : l.Pairwise (fun a b => a.2 ≤ b.2)) :
+    MonoSfx (fun _ => off) sch (sfxVal (fun _ => off) sch start) l :=
+  ⟨fun x hx => sfxVal_mono off sch _ _ (h1 x hx), h2.imp (fun hab => sfxVal_mono off sch _ _ hab)⟩
+
+/-- **No clobbering, dated schemes** (`_partial`: in a state satisfying `DatedInv`). Every target of the rename loop is
+    absent before the rotation or is the source of another rename of the same loop; since an earlier target is never a
+    later source (`DatedInv.pairs`), that other rename has already been performed — no retained file is overwritten. -/
+theorem C14_dated_no_clobber_partial (z : Nat → Int) (w : World) (h : DatedInv z w) :
+    (∀ m ∈ w.sink.created.filterMap (moveOf w.sink.cfg.scheme (newSuffix z w.sink.cfg.scheme w.sink.openTs)),
+      w.fs.get m.2 = none ∨
+        m.2 ∈ (w.sink.created.filterMap (moveOf w.sink.cfg.scheme (newSuffix z w.sink.cfg.scheme w.sink.openTs))).map (·.1)) ∧
+    w.sink.created.Pairwise (fun a b =>
+      (entryAfter w.sink.cfg.scheme (newSuffix z w.sink.cfg.scheme w.sink.openTs) a).name ≠ b.name) := by
+  refine ⟨dated_targets_free z w h, ?_⟩
+  rw [newSuffix_dated z _ _ h.scheme]
+  exact h.pairs.imp (fun hx => hx.2.2.1)
+
+/-- **Restarts, dated schemes** (`_partial`). If the new process starts on a later-or-equal day (Date) / a strictly later
+    second (DateAndTime) than the suffix the current file would get, keeps the scheme and starts in append mode or in
+    write mode with clean-up, the invariant of `C14_dated_run_partial` holds again — order by name and no-clobber
+    continue across the restart. What does **not** continue is the bookkeeping: files of earlier days / runs are left
+    out of `_created_files` (`C14_F15_restart_bound_fails`). -/
+theorem C14_dated_restart_partial (z : Nat → Int) (w : World) (c : Cfg) (start : Nat) (h : DatedInv z w)
+    (hsch : c.scheme = w.sink.cfg.scheme) (hmode : c.append = true ∨ c.removeOld = true)
+    (hlater : (c.scheme = .date → sfxVal z c.scheme w.sink.openTs ≤ civilDay z start) ∧
+      (c.scheme = .dateTime → sfxVal z c.scheme w.sink.openTs < civilSec z start)) :
+    DatedInv z (restart z w.fs c start) := by
+  apply restart_dated_inv z w.fs c start (by rw [hsch]; exact h.scheme) hmode
+  refine ⟨h.keys, ?_⟩
+  intro d k hk
+  have hle : d ≤ sfxVal z c.scheme w.sink.openTs := by
+    rw [hsch]
+    rcases h.ghosts d k hk with ht | ht
+    · exact h.bound _ ht d rfl
+    · omega
+  exact ⟨fun hd => by have := hlater.1 hd; omega, fun hd => by have := hlater.2 hd; omega⟩
 
 /-! ### counter-witnesses (proved on the model, reproduced on the real code by the harness: corpus/C14) -/
 
@@ -296,6 +370,17 @@ example : DirOK [(.foreign 1, []), (.junk 0, []), (.file none 5, [⟨9, 3⟩])] 
   · simp_all
   · simp at hk
     exact hk.1.symm
+
+/-- `C14_dated_run_partial`: its premises are met by a directory holding an older dated file and an unrelated one, a Date
+    configuration and records over two days (three rotations, one of them bumping an index) -/
+example :
+    let c : Cfg := { scheme := .date, limit := 10, append := true }
+    let fs0 : FS := [(.file (some 0) 0, [⟨7, 3⟩]), (.foreign 2, [])]
+    let l : List (Stmt × Nat) := [(⟨1, 8⟩, dayNs + 1), (⟨2, 8⟩, dayNs + 2), (⟨3, 8⟩, dayNs + 3), (⟨4, 8⟩, 2 * dayNs)]
+    c.scheme ≠ .index ∧ fs0.keys.Nodup ∧ MonoSfx zGmt c.scheme (sfxVal zGmt c.scheme dayNs) l ∧
+      (run ⟨true⟩ zGmt (restart zGmt fs0 c dayNs) (l.map (fun p => Op.write p.1 p.2))).sink.created =
+        [⟨some 1, 2⟩, ⟨some 1, 1⟩, ⟨some 1, 0⟩, curInfo] := by
+  refine ⟨by decide, by decide, ⟨by decide, by decide⟩, by decide⟩
 
 /-- the hypotheses of the per-write theorems are met by a reachable state in which a rotation deletes a file -/
 example :
